@@ -287,7 +287,14 @@ func ruleCodecMustPass(c *Ctx) {
 		const passed factBits = 1
 		isCodec := func(call *ast.CallExpr) bool {
 			r, mname, pkg, isM := c.calleeMethod(call)
-			return isM && pkg == "encoding/gob" && (r == "Encoder" && mname == "Encode" || r == "Decoder" && mname == "Decode")
+			if isM && pkg == "encoding/gob" && (r == "Encoder" && mname == "Encode" || r == "Decoder" && mname == "Decode") {
+				return true
+			}
+			// a package helper that runs the gob codec on one of its parameters
+			if g, ok := c.callee(call).(*types.Func); ok && g.Pkg() == c.Types {
+				return c.gobHelperParam(g, name) >= 0
+			}
+			return false
 		}
 		n := 0
 		flowForward(c.cfgOf(fd), 0, func(nd ast.Node, in factBits) factBits {
